@@ -363,7 +363,9 @@ func driveRings(kb, sb *tv.Batch, init []int, zeroSingles bool, ops func(step in
 	ku := build(kitOps, init, zeroSingles)
 	su := build(stdOps, init, zeroSingles)
 	kb.Start(tv.M{"n": len(init), "init": init, "impl": "kit"})
-	sb.Start(tv.M{"n": len(init), "init": init, "impl": "std"})
+	if sb != nil {
+		sb.Start(tv.M{"n": len(init), "init": init, "impl": "std"})
+	}
 	for step := 0; ; step++ {
 		o, ok := ops(step, len(init))
 		if !ok {
@@ -378,7 +380,9 @@ func driveRings(kb, sb *tv.Batch, init []int, zeroSingles bool, ops func(step in
 			knx = append(knx, -9) // makes the model reject the structure
 		}
 		kb.Ev("op", tv.M{"op": o.Op, "r": o.R, "s": o.S, "n": o.N, "res": kres, "to": knx})
-		sb.Ev("op", tv.M{"op": o.Op, "r": o.R, "s": o.S, "n": o.N, "res": sres, "to": snx})
+		if sb != nil {
+			sb.Ev("op", tv.M{"op": o.Op, "r": o.R, "s": o.S, "n": o.N, "res": sres, "to": snx})
+		}
 		if !reflect.DeepEqual(kres, sres) || !reflect.DeepEqual(knx, snx) {
 			return o.Op, o
 		}
@@ -410,8 +414,54 @@ func ringInit(a, b int) []int { // New(a) on cells 1..a, New(b) on the next b ce
 	return nx
 }
 
+// multiBatch spreads traces over several batches of bounded size; each batch
+// is one TLC run (one after the other).  Trace indices are global.
+type multiBatch struct {
+	bs    []*tv.Batch
+	offs  []int
+	n     int
+	limit int
+}
+
+func (m *multiBatch) next() *tv.Batch { // the batch the next trace goes to
+	if len(m.bs) == 0 || m.bs[len(m.bs)-1].Lines() >= m.limit {
+		m.bs = append(m.bs, &tv.Batch{})
+		m.offs = append(m.offs, m.n)
+	}
+	m.n++
+	return m.bs[len(m.bs)-1]
+}
+
+func (m *multiBatch) lines() int {
+	t := 0
+	for _, b := range m.bs {
+		t += b.Lines()
+	}
+	return t
+}
+
+func (m *multiBatch) traceStrings(g int) []string {
+	i := sort.Search(len(m.offs), func(i int) bool { return m.offs[i] > g }) - 1
+	return m.bs[i].TraceStrings(g - m.offs[i])
+}
+
+func (m *multiBatch) validate(o tlc.Opts) (rej []tv.Reject, ok bool, what string, wall time.Duration) {
+	for i, b := range m.bs {
+		r, res := tv.Validate(o, b)
+		wall += res.Wall
+		if !(res.OK || res.Violation) || (res.Violation && len(r) == 0) {
+			return nil, false, res.What + res.Tail(800), wall
+		}
+		for _, x := range r {
+			x.Trace += m.offs[i]
+			rej = append(rej, x)
+		}
+	}
+	return rej, true, "", wall
+}
+
 func ringTraces(e *ev.Evidence, rng *rand.Rand) int64 {
-	kb, sb := &tv.Batch{}, &tv.Batch{}
+	km, sm := &multiBatch{limit: 300000}, &multiBatch{limit: 300000}
 	type rcase struct {
 		Kind string `json:"kind"`
 		Init []int  `json:"init"`
@@ -425,13 +475,9 @@ func ringTraces(e *ev.Evidence, rng *rand.Rand) int64 {
 		at    ringEv
 	}
 	var diffs []directDiff
-	direct := func(kind string, init []int, zero bool, op string, o ringEv) {
-		if op != "" {
-			diffs = append(diffs, directDiff{kb.Len() - 1, op, o})
-		}
-	}
-	// random walks: 60-100 operations; the very first one is applied to the untouched zero-value Ring
-	nWalks := ev.Pick(400, 6000)
+	// random walks: 60-100 operations; the very first one is applied to the untouched zero-value Ring.
+	// Recorded for ring.Ring and for container/ring (whose traces check the model itself).
+	nWalks := ev.Pick(400, 3000)
 	for w := 0; w < nWalks; w++ {
 		init := ringInit(rng.Intn(6), rng.Intn(4))
 		nc := len(init)
@@ -450,7 +496,7 @@ func ringTraces(e *ev.Evidence, rng *rand.Rand) int64 {
 			}
 			return o
 		}
-		op, at := driveRings(kb, sb, init, true, func(step, _ int) (ringEv, bool) {
+		op, at := driveRings(km.next(), sm.next(), init, true, func(step, _ int) (ringEv, bool) {
 			if step >= length {
 				return ringEv{}, false
 			}
@@ -459,11 +505,15 @@ func ringTraces(e *ev.Evidence, rng *rand.Rand) int64 {
 			}
 			return randOp(kinds[rng.Intn(len(kinds))], 1+rng.Intn(nc)), true
 		})
-		direct("walk", init, true, op, at)
+		if op != "" {
+			diffs = append(diffs, directDiff{len(cases), op, at})
+		}
 		cases = append(cases, rcase{"walk", init, true})
 		e.Nontrivial(fmt.Sprint("ringwalk:", w))
 	}
-	// all mutation sequences up to depth d over New(3) + a zero-value Ring (4 cells), with a Do on every cell after each
+	// all Link/Unlink sequences of depth d over New(3) + a zero-value Ring (4 cells); the structure is observed
+	// after every operation (quick tier: also a Do on every cell).  container/ring is driven in lock step and
+	// compared directly; only the ring.Ring traces go to TLC.
 	depth := ev.Pick(2, 3)
 	init := ringInit(3, 0)
 	var muts []ringEv
@@ -482,17 +532,19 @@ func ringTraces(e *ev.Evidence, rng *rand.Rand) int64 {
 			var plan []ringEv
 			for _, m := range seq {
 				plan = append(plan, m)
-				for c := 1; c <= 4; c++ {
+				for c := 1; c <= 4 && depth < 3; c++ {
 					plan = append(plan, ringEv{Op: "do", R: c})
 				}
 			}
-			op, at := driveRings(kb, sb, init, true, func(step, _ int) (ringEv, bool) {
+			op, at := driveRings(km.next(), nil, init, true, func(step, _ int) (ringEv, bool) {
 				if step >= len(plan) {
 					return ringEv{}, false
 				}
 				return plan[step], true
 			})
-			direct("all-mutation-sequences", init, true, op, at)
+			if op != "" {
+				diffs = append(diffs, directDiff{len(cases), op, at})
+			}
 			cases = append(cases, rcase{"all-mutation-sequences", init, true})
 			nPaths++
 			return
@@ -502,18 +554,13 @@ func ringTraces(e *ev.Evidence, rng *rand.Rand) int64 {
 		}
 	}
 	rec(nil)
-	fmt.Printf("ring traces: %d walks + %d mutation sequences of depth %d; %d events per implementation\n", nWalks, nPaths, depth, kb.Lines())
-	opts := tlc.Opts{Dir: specDir, Module: "TraceRing", Config: "TraceRing.cfg", Workers: 8, Timeout: ev.Pick(6*time.Minute, 40*time.Minute), HeapMB: 12000}
-	var kres, sres tlc.Result
-	var krej, srej []tv.Reject
-	var wg sync.WaitGroup
-	wg.Add(2)
-	go func() { defer wg.Done(); krej, kres = tv.Validate(opts, kb) }()
-	go func() { defer wg.Done(); srej, sres = tv.Validate(opts, sb) }()
-	wg.Wait()
-	fmt.Printf("TLC ring trace validation: kit ok=%v rejected=%d wall=%s %s; container/ring ok=%v rejected=%d wall=%s %s\n", kres.OK, len(krej), kres.Wall.Round(time.Millisecond), kres.What, sres.OK, len(srej), sres.Wall.Round(time.Millisecond), sres.What)
-	if !(kres.OK || kres.Violation) || !(sres.OK || sres.Violation) || (kres.Violation && len(krej) == 0) || (sres.Violation && len(srej) == 0) {
-		e.Inconclusive("ring trace validation did not run: " + kres.What + " / " + sres.What + kres.Tail(800) + sres.Tail(800))
+	fmt.Printf("ring traces: %d walks + %d mutation sequences of depth %d; %d events on ring.Ring, %d on container/ring\n", nWalks, nPaths, depth, km.lines(), sm.lines())
+	opts := tlc.Opts{Dir: specDir, Module: "TraceRing", Config: "TraceRing.cfg", Workers: 6, Timeout: ev.Pick(6*time.Minute, 30*time.Minute), HeapMB: 10000}
+	krej, kok, kwhat, kwall := km.validate(opts)
+	srej, sok, swhat, swall := sm.validate(opts)
+	fmt.Printf("TLC ring trace validation: kit ok=%v rejected=%d wall=%s; container/ring ok=%v rejected=%d wall=%s\n", kok, len(krej), kwall.Round(time.Millisecond), sok, len(srej), swall.Round(time.Millisecond))
+	if !kok || !sok {
+		e.Inconclusive("ring trace validation did not run: " + kwhat + " / " + swhat)
 		return 0
 	}
 	stdBad := map[int]bool{}
@@ -526,22 +573,22 @@ func ringTraces(e *ev.Evidence, rng *rand.Rand) int64 {
 		if stdBad[r.Trace] || ringFlagged[strings.SplitN(r.Why, ":", 2)[0]] {
 			continue
 		}
-		e.Violation("ring:"+r.Why+":only-within-a-sequence", "operation sequence on ring.Ring rejected by Ring.tla at event "+fmt.Sprint(r.At)+" (the same operation replayed on a freshly built ring agrees with the model)", tv.M{"case": cases[r.Trace], "at": r.At, "trace": kb.TraceStrings(r.Trace)})
+		e.Violation("ring:"+r.Why+":only-within-a-sequence", "operation sequence on ring.Ring rejected by Ring.tla at event "+fmt.Sprint(r.At)+" (the same operation replayed on a freshly built ring agrees with the model)", tv.M{"case": cases[r.Trace], "at": r.At, "trace": km.traceStrings(r.Trace)})
 	}
 	for _, d := range diffs {
 		if kitBad[d.trace] || stdBad[d.trace] || ringFlagged[d.op] {
 			continue
 		}
-		e.Violation("ring:"+d.op+":differs-from-container/ring:only-within-a-sequence", "ring.Ring and container/ring disagree within an operation sequence (where Ring.tla allows either)", tv.M{"case": cases[d.trace], "at": d.at, "kit_trace": kb.TraceStrings(d.trace), "std_trace": sb.TraceStrings(d.trace)})
+		e.Violation("ring:"+d.op+":differs-from-container/ring:only-within-a-sequence", "ring.Ring and container/ring disagree within an operation sequence (where Ring.tla allows either)", tv.M{"case": cases[d.trace], "at": d.at, "kit_trace": km.traceStrings(d.trace)})
 	}
 	for _, r := range srej {
-		e.Inconclusive(fmt.Sprintf("Ring.tla rejects a container/ring execution (%s at event %d): the model is wrong: %v", r.Why, r.At, sb.TraceStrings(r.Trace)))
+		e.Inconclusive(fmt.Sprintf("Ring.tla rejects a container/ring execution (%s at event %d): the model is wrong: %v", r.Why, r.At, sm.traceStrings(r.Trace)))
 		break
 	}
-	e.Sample(tv.M{"mode": "ring-walk", "trace": kb.TraceStrings(0)[:8]})
+	e.Sample(tv.M{"mode": "ring-walk", "trace": km.traceStrings(0)[:8]})
 	e.Set("ring_walks", int64(nWalks))
 	e.Set("ring_mutation_sequences", int64(nPaths))
-	return int64(kb.Len())
+	return int64(km.n)
 }
 
 func bufTraces(e *ev.Evidence, rng *rand.Rand) int64 {
